@@ -78,6 +78,10 @@ func (t *ServerTransport) Handshake(handshakePacket *parser.Packet, w http.Respo
 	}
 	if t.readLimit != 0 {
 		t.conn.SetReadLimit(t.readLimit)
+	} else {
+		// No limit (DisableMaxBufferSize): the default limit (32 KiB)
+		// of the WebSocket library must not apply either.
+		t.conn.SetReadLimit(-1)
 	}
 	// sid is only for webtransport
 	return "", t.writeHandshakePacket(handshakePacket)
